@@ -114,7 +114,7 @@ Lemma set_refused c s name v :
   s_updated s = true ->
   (find_name (toc c) name = None -> step c s (EvSet name v) = Some (s, [ORaise X_KEY])) /\
   (forall e, find_name (toc c) name = Some e -> e_ro e = true -> step c s (EvSet name v) = Some (s, [ORaise X_ATTR])) /\
-  (find_name (toc c) name = None -> step c s (EvRead name) = Some (s, [ORaise X_STRUCT])).
+  (find_name (toc c) name = None -> step c s (EvRead name) = Some (s, [ORaise (read_exn name)])).
 Proof.
   intros Hu. repeat split.
   - intros Hf. cbn [step]. rewrite Hu. cbn [negb]. unfold set_value. rewrite Hf. reflexivity.
